@@ -135,3 +135,41 @@ func closedCompositionPair(r *lib.Rand) (doc map[string]any, inst any) {
 	}
 	return doc, inst
 }
+
+// formatLeafPair builds a schema with one leaf {type: string, format: F} below one or two nesting positions and an
+// instance which carries a string at that place.  F and the string are drawn so that strfmt.Default and the
+// alternative registry mostly disagree (redefined, removed and registry-only names).
+func formatLeafPair(r *lib.Rand) (doc map[string]any, inst any) {
+	f := []string{"date", "email", "hostname", "uuid", "x-even", "x-caps", "hexcolor", "ipv4"}[r.Intn(8)]
+	str := []string{"ab", "abc", "2020-01-31", "a@b.co", "example.com", "AB", "#fff", "1.2.3.4", "zz9", ""}[r.Intn(10)]
+	doc = map[string]any{"type": "string", "format": f}
+	inst = str
+	for depth := r.Range(1, 2); depth > 0; depth-- {
+		switch r.Intn(11) {
+		case 0:
+			doc, inst = map[string]any{"properties": map[string]any{"p": doc}}, map[string]any{"p": inst}
+		case 1:
+			doc, inst = map[string]any{"patternProperties": map[string]any{"^p": doc}}, map[string]any{"pq": inst}
+		case 2:
+			doc, inst = map[string]any{"additionalProperties": doc}, map[string]any{"other": inst}
+		case 3:
+			doc, inst = map[string]any{"properties": map[string]any{"known": map[string]any{}}, "additionalProperties": doc}, map[string]any{"known": gen.I(1), "more": inst}
+		case 4:
+			doc, inst = map[string]any{"items": doc}, []any{inst}
+		case 5:
+			doc, inst = map[string]any{"items": []any{map[string]any{}, doc}}, []any{gen.I(0), inst}
+		case 6:
+			doc, inst = map[string]any{"items": []any{map[string]any{}}, "additionalItems": doc}, []any{gen.I(0), inst}
+		case 7:
+			doc = map[string]any{r.Pick("allOf", "anyOf", "oneOf"): []any{doc}}
+		case 8:
+			doc = map[string]any{"not": doc}
+		case 9:
+			doc, inst = map[string]any{"dependencies": map[string]any{"trigger": map[string]any{"properties": map[string]any{"p": doc}}}}, map[string]any{"trigger": true, "p": inst}
+		default:
+			doc = map[string]any{"allOf": []any{map[string]any{"$ref": "#/definitions/leaf"}}, "definitions": map[string]any{"leaf": doc}}
+			return doc, inst // definitions must stay at the root
+		}
+	}
+	return doc, inst
+}
